@@ -79,9 +79,17 @@ def check_G2(ctx, facts):
     flow = Flow(ah)
     calls = list(ah.calls())
     ext = [(b, t) for b, t in calls if cname(t) == 'core::iter::traits::collect::Extend::extend' and 3 in flow.backward([op_local(t['args'][1])])]
-    good = bool(ext) and ah.must_pass([0], [b for b, t in ext], ah.return_blocks())
+    # accepted alternative: a loop over the new handlers with BTreeMap::insert (replaces); NOT entry().or_insert* (keeps a stale handler)
+    loop_ins = [(b, t) for b, t in calls if cname(t) == 'alloc::collections::btree::map::BTreeMap::insert' and HANDLER_TY in ' '.join(t.get('gargs') or [])
+                and 3 in flow.backward([op_local(t['args'][-1])])]
+    keepers = [(b, t) for b, t in calls if cname(t) and re.search(r'btree::map::entry::Entry::(or_insert|or_insert_with|or_default)$', cname(t))
+               and HANDLER_TY in ' '.join(t.get('gargs') or [])]
+    writes = [b for b, t in ext + loop_ins]
+    good = bool(writes) and not keepers and (ah.must_pass([0], [b for b, t in ext], ah.return_blocks()) if ext else True)
     ctx.ob('C13.G2', 'handlers-extended', good, site(ah),
-           'handler map is extended with the new handlers on every path' if good else 'the handler map does not receive the new handlers on every path')
+           'the handler map receives (and replaces with) the new handlers on every path' if good else
+           ('the handler map keeps an existing handler when a service is added again (entry().or_insert): requests are dispatched to the removed / old instance'
+            if keepers else 'the handler map does not receive the new handlers on every path'))
     ins = [(b, t) for b, t in calls if cname(t) == 'alloc::collections::btree::set::BTreeSet::insert']
     good = False
     for b, t in ins:
